@@ -78,6 +78,11 @@ pub fn is_tok<'tcx>(tcx: TyCtxt<'tcx>, t: Ty<'tcx>) -> bool {
     matches!(t.kind(), ty::Adt(a, _) if tcx.item_name(a.did()).as_str() == "Tok")
 }
 
+/// library types kept as one opaque leaf (their internal layout is irrelevant to the analysis)
+pub fn is_opaque_leaf<'tcx>(tcx: TyCtxt<'tcx>, t: Ty<'tcx>) -> bool {
+    matches!(t.kind(), ty::Adt(a, _) if { let n = tcx.def_path_str(a.did()); n == "std::fmt::Arguments" || n == "core::fmt::Arguments" })
+}
+
 pub fn inner_of_transparent<'tcx>(tcx: TyCtxt<'tcx>, t: Ty<'tcx>) -> Ty<'tcx> {
     if let ty::Adt(a, args) = t.kind() {
         // MaybeUninit is a union {uninit: (), value: ManuallyDrop<T>}: take the last field
@@ -94,7 +99,7 @@ pub fn arr_len<'tcx>(tcx: TyCtxt<'tcx>, n: ty::Const<'tcx>) -> usize {
 pub fn leaf_count<'tcx>(tcx: TyCtxt<'tcx>, t: Ty<'tcx>) -> usize {
     match t.kind() {
         ty::Adt(a, _) if is_transparent_adt(tcx, a.did()) => leaf_count(tcx, inner_of_transparent(tcx, t)),
-        ty::Adt(_, _) if is_tok(tcx, t) => 1,
+        ty::Adt(_, _) if is_tok(tcx, t) || is_opaque_leaf(tcx, t) => 1,
         ty::Adt(a, args) if a.is_struct() => a.non_enum_variant().fields.iter().map(|f| leaf_count(tcx, f.ty(tcx, args))).sum(),
         ty::Tuple(ts) => ts.iter().map(|t| leaf_count(tcx, t)).sum(),
         ty::Array(e, n) => leaf_count(tcx, *e) * arr_len(tcx, *n),
@@ -144,7 +149,7 @@ pub fn flat_sub(v: &V, start: usize, count: usize, out: &mut Vec<PE>) -> bool {
 pub fn reshape<'tcx>(tcx: TyCtxt<'tcx>, t: Ty<'tcx>, leaves: &mut std::vec::IntoIter<V<'tcx>>) -> V<'tcx> {
     match t.kind() {
         ty::Adt(a, _) if is_transparent_adt(tcx, a.did()) => reshape(tcx, inner_of_transparent(tcx, t), leaves),
-        ty::Adt(_, _) if is_tok(tcx, t) => leaves.next().unwrap_or(V::Uninit),
+        ty::Adt(_, _) if is_tok(tcx, t) || is_opaque_leaf(tcx, t) => leaves.next().unwrap_or(V::Uninit),
         ty::Adt(a, args) if a.is_struct() => V::Agg(a.non_enum_variant().fields.iter().map(|f| reshape(tcx, f.ty(tcx, args), leaves)).collect()),
         ty::Tuple(ts) => V::Agg(ts.iter().map(|t| reshape(tcx, t, leaves)).collect()),
         ty::Array(e, n) => V::Agg((0..arr_len(tcx, *n)).map(|_| reshape(tcx, *e, leaves)).collect()),
